@@ -52,6 +52,7 @@ class Field:
     name: str = ''
     doc: bool = False
     qualified: bool = False                # spell arbitrary-int field types as arbitrary_int::uN
+    arg_order: str = 'ras'                 # order of the attribute arguments: r = range, a = access, s = stride
 
     @property
     def w(self):
@@ -98,3 +99,4 @@ class Struct:
     keep_names: bool = False    # keep the field names given by the enumerator (NAMES family)
     derives: str = ''           # user derives passed through the macro, e.g. '#[derive(PartialEq, Eq)]'
     vis: str = 'pub'            # struct visibility: 'pub' | 'pub(crate)' | '' (private)
+    doc_after_attrs: bool = False   # place the struct's doc comment after the user's attributes
